@@ -205,7 +205,7 @@ func mutate(t *rapid.T, root map[string]any) (string, []string) {
 		w    int
 	}
 	ops := []op{{"delete-elem", 2}, {"disc-mapping", 2}, {"delete", 4}, {"null", 3}, {"swap", 4}, {"drop-schema", 3}, {"schema-to-content", 2}, {"drop-items", 2}, {"server-var", 2},
-		{"bad-ref", 3}, {"cyclic-ref", 2}, {"extension", 2}, {"empty-security-requirement", 1}, {"forward-array-component", 1}, {"servers", 1}, {"bad-type", 2}, {"empty-map", 2}, {"param-missing", 2}, {"status-pattern", 1}, {"dup-path-var", 1}}
+		{"bad-ref", 3}, {"cyclic-ref", 2}, {"extension", 2}, {"json-pointer-ref", 1}, {"path-param-mismatch", 1}, {"null-component", 1}, {"empty-security-requirement", 1}, {"forward-array-component", 1}, {"servers", 1}, {"bad-type", 2}, {"empty-map", 2}, {"param-missing", 2}, {"status-pattern", 1}, {"dup-path-var", 1}}
 	var names []string
 	for _, o := range ops {
 		for i := 0; i < o.w; i++ {
@@ -328,6 +328,74 @@ func mutate(t *rapid.T, root map[string]any) (string, []string) {
 			s.set(map[string]any{"$ref": "#/components/schemas/CycA"})
 		}
 		return "cyclic-ref", []string{"components", "schemas", "CycA"}
+	case "json-pointer-ref":
+		// a $ref the loader resolves although it does not name a component: a JSON pointer
+		// into a nested schema, acyclic or pointing back into itself
+		comps, _ := root["components"].(map[string]any)
+		if comps == nil {
+			comps = map[string]any{}
+			root["components"] = comps
+		}
+		schemas, _ := comps["schemas"].(map[string]any)
+		if schemas == nil {
+			schemas = map[string]any{}
+			comps["schemas"] = schemas
+		}
+		cyclic := rapid.Bool().Draw(t, "pointer_cyclic")
+		inner := map[string]any{"type": "object", "properties": map[string]any{"name": map[string]any{"type": "string"}}}
+		if cyclic {
+			inner["properties"].(map[string]any)["parent"] = map[string]any{"$ref": "#/components/schemas/PtrNode/properties/parent"}
+		}
+		schemas["PtrNode"] = map[string]any{"type": "object", "properties": map[string]any{"name": map[string]any{"type": "string"}, "parent": inner,
+			"alias": map[string]any{"$ref": "#/components/schemas/PtrNode/properties/name"}}}
+		if s, ok := pick(byKey("schema")); ok && rapid.Bool().Draw(t, "use_pointer") {
+			s.set(map[string]any{"$ref": "#/components/schemas/PtrNode"})
+		}
+		return fmt.Sprintf("json-pointer-ref:cyclic=%v", cyclic), []string{"components", "schemas", "PtrNode"}
+	case "path-param-mismatch":
+		// a declared path parameter that is not a whole {name} segment of its template
+		paths, _ := root["paths"].(map[string]any)
+		if paths != nil {
+			tpl, decl := "/reports/{reportId}.pdf", "reportId"
+			switch rapid.IntRange(0, 2).Draw(t, "mismatch_kind") {
+			case 1:
+				tpl, decl = "/pets/{petId}", "pet_id"
+			case 2:
+				tpl, decl = "/files/v{version}/x", "version"
+			}
+			paths[tpl] = map[string]any{"get": map[string]any{"parameters": []any{map[string]any{"name": decl, "in": "path", "required": true, "schema": map[string]any{"type": "string"}}}, "responses": map[string]any{"default": map[string]any{"description": ""}}}}
+			return "path-param-mismatch", []string{"paths", tpl}
+		}
+	case "null-component":
+		// a null entry in one of the components maps
+		comps, _ := root["components"].(map[string]any)
+		if comps == nil {
+			comps = map[string]any{}
+			root["components"] = comps
+		}
+		section := rapid.SampledFrom([]string{"links", "examples", "callbacks", "headers", "parameters", "requestBodies", "responses", "schemas", "securitySchemes", "response-links", "response-headers"}).Draw(t, "null_section")
+		if strings.HasPrefix(section, "response-") {
+			// the same inside a response object of an operation
+			var resps []site
+			for _, s := range byKey("description") {
+				if len(s.path) >= 2 && s.path[len(s.path)-3] == "responses" {
+					resps = append(resps, s)
+				}
+			}
+			if s, ok := pick(resps); ok {
+				key := strings.TrimPrefix(section, "response-")
+				s.parent.(map[string]any)[key] = map[string]any{"NullEntry": nil}
+				return "null-component:" + section, append(append([]string{}, s.path[:len(s.path)-1]...), key, "NullEntry")
+			}
+			section = "links"
+		}
+		m, _ := comps[section].(map[string]any)
+		if m == nil {
+			m = map[string]any{}
+			comps[section] = m
+		}
+		m["NullEntry"] = nil
+		return "null-component:" + section, []string{"components", section, "NullEntry"}
 	case "extension":
 		// goag's own vendor extensions with values it does not expect
 		var schemas []site
@@ -441,7 +509,7 @@ func namedElements(node any, out map[string]bool, parentKey string) {
 	case map[string]any:
 		for k, v := range n {
 			switch parentKey {
-			case "paths", "properties", "schemas", "responses", "parameters", "headers", "requestBodies", "securitySchemes", "content", "variables", "mapping":
+			case "paths", "properties", "schemas", "responses", "parameters", "headers", "requestBodies", "securitySchemes", "content", "variables", "mapping", "links", "examples", "callbacks":
 				if len(k) > 0 {
 					out[k] = true
 				}
